@@ -52,6 +52,28 @@ def sop_case(rng, dt, gdt):
     return {'kind': 'sop', 'op': kind, 'dt': dt, 'gdt': gdt, 'lines': lines, 'nout': 1, 'zero_d': sh == ()}
 
 
+def mixed_const_case(rng):
+    """ONE Python constant meeting tensors of both dtypes in one program, in either order (a scalar operand takes the dtype of the
+    tensor it meets, each time): the constant is drawn fresh, so nothing earlier in the process has seen it"""
+    c0 = round(rng.uniform(1.5, 9.5), 6)
+    first = rng.pick(['f64', 'f64', 'f32'])
+    second = 'f32' if first == 'f64' else 'f64'
+    sh = gen_ops.rshape(rng, 0, 2)
+    kind0 = rng.pick(['add', 'mul', 'sub', 'div'])
+    kinds = [kind0, kind0 if rng.chance(.8) else rng.pick(['add', 'mul', 'sub', 'div'])]      # mostly the same operator twice: the same operand expression
+    lines = [gen_dag.leaf_line(sh, gen_ops.vals(rng, sh, 'pos'), True, first), gen_dag.leaf_line(sh, gen_ops.vals(rng, sh, 'pos'), True, second)]
+    nt = 2
+    res = []
+    for k, (leaf, kind) in enumerate(zip((0, 1), kinds)):
+        lines.append(f't sop {kind} {leaf} s{fbits(c0)}')
+        nt += {'add': 1, 'mul': 1, 'sub': 1, 'div': 1}[kind] + 1
+        res.append(nt - 1)
+    for r in res:
+        lines += [f't dtype {r}', f't op sum {r} all 0']; nt += 1
+        lines += [f't dtype {nt - 1}']
+    return {'kind': 'sop', 'op': 'mixed-constant', 'dt': second, 'gdt': second, 'lines': lines, 'nout': 1, 'zero_d': sh == ()}
+
+
 def loss_case(rng, dt, gdt):
     name = rng.pick(['mse_loss', 'nll_loss', 'binary_cross_entropy', 'binary_cross_entropy_with_logits', 'cross_entropy'])
     leaves, args = gen_ops.gen_nn(rng, name, False)
@@ -217,6 +239,8 @@ def cases(rng, tier):
             for _ in range(8 * reps):
                 out.append(sop_case(rng, dt, gdt))
                 out.append(loss_case(rng, dt, gdt))
+    for _ in range(12 if tier == 'quick' else 240):
+        out.append(mixed_const_case(rng))
     # corpus: full reduction / element indexing / reduced loss of float64 operands
     for dt in ('f32', 'f64'):
         out.append({'kind': 'op', 'op': 'sum', 'dt': dt, 'gdt': 'f32', 'nout': 1, 'zero_d': True,
